@@ -68,7 +68,7 @@ ConvSet(e, ts2) ==
          IF ts2 = UTC THEN TaiToUtcSet(t) ELSE {Sub(t, Ref[ts2])}
 ConvOK(e, ts2, r) ==
   /\ r.ts = ts2 /\ InRange(r.v)
-  /\ (ts2 = e.ts => r.v = e.v)
+  /\ ((ts2 = e.ts /\ InRange(Instant(e))) => r.v = e.v)     \* (some accessors go through TAI even for the identity)
   /\ LET t == Instant(e) IN
        (InRange(t) /\ (\A x \in ConvSet(e, ts2) : InRange(x))) => r.v \in ConvSet(e, ts2)
 
